@@ -224,7 +224,7 @@ class P:
                 name = self.eatid()
                 if self.at("::") and self.at("<", 1):
                     self.i += 2
-                    self.eatid()
+                    name = "%s::<%s>" % (name, self.eatid())          # the type argument is part of the method's name
                     self.eat(">")
                 if self.at("("):
                     e = ("method", e, name, self.args())
@@ -1061,7 +1061,7 @@ class ExecP(Exec):
                     return K(("sp", "c_sp (snd %s)" % v[1]))
                 if name == "and_then" and v[0] == "optmem" and len(a) == 1 and a[0][0] == "closure":
                     return self.apply(a[0], [("mem", "memory")], lambda r, e4: k(("optunit", "opt_and_then (%s) (fun memory => %s)" % (v[1], self.unit(r))), e4), env3)
-                if name == "get_memory_at_address" and v[0] == "mem" and len(a) == 1 and a[0][0] == "sp":
+                if name == "get_memory_at_address::<u64>" and v[0] == "mem" and len(a) == 1 and a[0][0] == "sp":
                     return K(("optunit", "get_u64 mems %s (%s)" % (v[1], a[0][1])))
                 if name == "is_some" and v[0] == "optunit" and not a:
                     return K(("b", "opt_is_some (%s)" % v[1]))
